@@ -21,9 +21,9 @@ CHECKS = {
         ref="4 C02"),
     "C03": dict(
         engine="Replicas",
-        technique="TLA+ spec Replicas (emitter buffer, subscriber, log, best-effort sidecar with rebuild, snapshot as separately scheduled steps) model-checked with TLC; recorded scenarios through the real router with a live SSE subscriber per stream validated by TLC per stream (ReplicasTrace: live, late subscriber, raw log, replayed log, sidecar, snapshot as digests of canonical JSON); every frame type and its payload mutants through rip_kernel::Event and EventLog append / replay",
-        text="TLC proves LiveIsLog, SidecarIsPrefixOfLog, SnapshotIsLog and NothingExtra for every interleaving of record / publish / append / sidecar append / rebuild / snapshot over three streams, and finds the counterexample when a log append may fail silently; three scenarios (provider runs with unicode text, tool calls that succeed and fail, an HTTP error, a junk event, request dumps; tool and checkpoint commands; tasks incl. cancel and refused requests; every continuity operation incl. branch and handoff) are run with one subscriber per stream from its first frame and TLC checks for each of the streams that the live frames, a late subscriber, the raw log lines, the code's replay, the sidecar and the snapshot are the same frames in the same order with contiguous seqs; all 38 frame types (33 as emitted, 5 written from their definitions) and about 1 000 payload mutants (unicode, control characters, 100 KB strings, empty collections, nested JSON, u64::MAX, optional fields absent / null) must keep every field and their stream assignment through parse / serialise and through append / replay.",
-        note="Scenario-based (three histories), not exhaustive over histories; a crash between publish and append is outside the model; PTY-only frame types are covered by the round trip only.",
+        technique="TLA+ spec Replicas (emitter buffer, subscriber, log, best-effort sidecar with rebuild, snapshot as separately scheduled steps) model-checked with TLC; recorded scenarios and generated histories (random sequences over the alphabet of client operations and unusual payloads) through the real router with a live SSE subscriber per stream validated by TLC per stream (ReplicasTrace: live, late subscriber, raw log, replayed log, sidecar, snapshot as digests of canonical JSON); every frame type and its payload mutants through rip_kernel::Event and EventLog append / replay",
+        text="TLC proves LiveIsLog, SidecarIsPrefixOfLog, SnapshotIsLog and NothingExtra for every interleaving of record / publish / append / sidecar append / rebuild / snapshot over three streams, and finds the counterexample when a log append may fail silently; three scenarios (provider runs with unicode text, tool calls that succeed and fail, an HTTP error, a junk event, request dumps; tool and checkpoint commands; tasks incl. cancel and refused requests; every continuity operation incl. branch and handoff) plus generated histories (30 in the quick tier, 500 in the thorough tier: 4-9 steps drawn from 13 provider answers incl. null / empty / malformed call arguments, 15 tool and checkpoint commands linked and unlinked, 10 task requests, 13 continuity operations, with and without a torn sidecar + restart at the end) are run with one subscriber per stream from its first frame and TLC checks for each of the streams that the live frames, a late subscriber, the raw log lines, the code's replay, the sidecar and the snapshot are the same frames in the same order with contiguous seqs; all 38 frame types (33 as emitted, 5 written from their definitions) and about 1 000 payload mutants (unicode, control characters, 100 KB strings, empty collections, nested JSON, u64::MAX, optional fields absent / null) must keep every field and their stream assignment through parse / serialise and through append / replay.",
+        note="Three written scenarios + random histories over a fixed alphabet, not exhaustive over histories; a crash between publish and append is outside the model; PTY-only frame types are covered by the round trip only.",
         ref="4 C03"),
     "C04": dict(
         engine="StoreCache",
